@@ -59,6 +59,13 @@ def r_two_phase(ctx: Ctx, rule: str):
         rep.floor(rule, "Task.cancel steps in cancel", len(ctx.distinct_sites(cs)), 1)
         lookups = ctx.nodes(f, lambda n: ctx.is_call_to(n, "_get_running_task"))
         rep.floor(rule, "look-ups in cancel", len(ctx.distinct_sites(lookups)), 1)
+        # what a look-up raises (AlreadyCancelled / AlreadyEnded / InvalidTaskID) is what cancel() raises: nothing in cancel catches it
+        for l_ in ctx.distinct_sites(lookups):
+            caught = [(s_, lab) for c_ in [x for x in g.nodes if x.ast is l_.ast and x.op == l_.op and x.pred] for s_, lab in c_.succ
+                      if lab[0] == "x" and s_.op in ("handler", "suppressed")]
+            rep.ob(rule, "the exception of a look-up leaves cancel() (an id that is not running makes the whole call fail)", not caught, node=l_,
+                   detail="" if not caught else f"{caught[0][1][1][0].rpartition('.')[2]} raised by the look-up is caught by `{caught[0][0].text(40)}`: the call goes on and "
+                                                "cancels the other ids although one of them was not running")
         rexits = [x for x in g.raise_exits.values() if x.pred]
         for c in ctx.distinct_sites(cs):
             later = [l for l in lookups if can_follow(c, l)]
